@@ -13,9 +13,9 @@ LEVEL = {
  "C05": ("model_checking", "PamsRunner (TLC, all schedules of a bounded population incl. self-trades): conservation and holdings-only-by-fills invariants. TraceLedger (TLC) folds the endowment with the fills reported by the real matching rounds and compares it with EVERY snapshot of all holdings taken by the probes (after _update_agents_for_execution, in every callback, at every step end) on recorded runs of the real SequentialRunner over random configurations.", "5 C05"),
  "C06": ("model_checking", "PamsRunner: LockStep, IndexAfterComponents, ClockIsStepCount, SkewAtMostOne on every reachable state; PamsMarket: HistoryImmutable, ClockStep. TraceClock validates all market clocks at every step begin/end record, clock step and session boundary of recorded runs (incl. runs crossing the 100-step chunks); TraceBook checks on the same runs that the eight series of past times never change (interned rows, prefix check) and that queries for the future are refused for all 17 accessors.", "5 C06"),
  "C09": ("model_checking", "PamsRunner explores every schedule (activation orders, batch orders, gate draws, agent programs) of a bounded population and session list and checks the sentences of C09 as invariants / action properties; TraceSched evaluates the same sentences on recorded runs (placement / execution switches, at-most-once, caps, rate 0 / 1, completeness of collection) and TraceBook the behavioural round-follows clause on the per-market books.", "5 C09"),
- "C10": ("model_checking", "PamsRunner: logger queue invariants (exactly once, in order, flushed at boundaries). TraceLog builds the ground truth of accepted orders / cancels / fills / expiries from the market probes and requires the deliveries to a recording Logger to be exactly that sequence (expiries of one step in any order), with equal fields, complete at every session boundary, step records synchronous.", "5 C10"),
+ "C10": ("model_checking", "PamsRunner: logger queue invariants (exactly once, in order, flushed at boundaries). TraceLog builds the ground truth of accepted orders / cancels / fills / expiries from the market probes and requires the deliveries to a recording Logger to be exactly that sequence (expiries of one step in any order), with equal fields, complete at every session boundary, step records synchronous. PamsLogger models the Logger API itself (write / bulk / direct / flush, dispatch by record class); its behaviours are replayed into the real Logger and validated by TraceLogger.", "5 C10"),
  "C11": ("model_checking", "TraceLedger keeps the bag of callbacks owed (owner per accepted order / cancel; buyer and seller per fill) and checks every callback observed in scripted agents against it, after holdings of the whole round (callback snapshot = post-round ledger); the bag must be empty at the end. PamsRunner supplies the schedules (self-trades, many fills) exhaustively for small populations.", "5 C11"),
- "C13": ("model_checking", "TraceHooks derives, from the EventHook objects actually registered, the calls each occurrence (order / cancel before+after, fill, session before+after, market step before+after) owes and requires the recorded calls of probe events to be exactly those - times, class / instance filters, before-hooks before the effect, alterations by before-hooks taking effect.", "5 C13"),
+ "C13": ("model_checking", "TraceHooks derives, from the EventHook objects actually registered, the calls each occurrence (order / cancel before+after, fill, session before+after, market step before+after) owes and requires the recorded calls of probe events to be exactly those - times, class / instance filters, before-hooks before the effect, alterations by before-hooks taking effect; the same run without a logger must make the same calls. PamsHooks models the registry (_add_event, the nine _trigger_event_* functions); TLC checks exactly-once on every bounded registry history, its behaviours are replayed into the real Simulator and validated by TraceHookReg.", "5 C13"),
  "C14": ("model_checking", "TableEvents (TLC) checks the shock / mistake-price arithmetic over a grid. TraceEvents (TLC) follows, on recorded runs in exact configurations, the fundamental of every market at every step begin and clock step against the configured shocks (target only, window only, magnitude), and compares every accepted order with what the scripted agent returned: exactly the first order to the target at the trigger time must be the configured mistake order, nothing else may be rewritten, disabled shocks do nothing.", "5 C14"),
  "C15": ("model_checking", "TableEvents (TLC): clip lemmas over a grid (inside unchanged, outside into the band, band widened by one tick after rounding). TraceEvents (TLC): every acceptance on recorded runs with price limit rules - accepted price = tick rounding of the clipped request on targets (reference = the market's time-0 price as read when the hook runs), unchanged on non-targets, market orders unchanged, trades inside the widened band, a rejected non-target order is a violation.", "5 C15"),
  "C16": ("model_checking", "PamsHalt (TLC): the state machine of the repaired rule for several rules / targets / sessions satisfies NoFillWithoutExec, NoCrash, HaltRespected, Resumed, SwitchRestored, StoppedOnlyByHalt; the as-found design is kept as a configuration that TLC must reject. TraceEvents (TLC) predicts from the reported fills when each target market must stop and resume and compares Market.is_running and the session switch at every step begin / end and acceptance; TraceBook: no fill on a market that is not running.", "5 C16"),
@@ -33,15 +33,15 @@ TECH = {
  "C01": "TLA+ design model (TLC exhaustive) + TLC trace validation of real Market executions + TLC behaviours replayed into the code",
  "C02": "TLA+ total-order lemmas (TLC) + exhaustive comparison table validated by TLC + trace validation incl. arrival-order permutations",
  "C03": "TLA+ design model (TLC exhaustive) + TLC trace validation of real Market executions",
- "C04": "TLA+ accounting/lifetime invariants (TLC exhaustive) + TLC trace validation with reported volumes and negative scenarios",
+ "C04": "TLA+ accounting/lifetime invariants (TLC exhaustive) + TLC trace validation with reported volumes, clock jumps and negative scenarios (market level and run level: TraceOwner)",
  "C08": "TLA+ action properties on the price/statistics state machine (TLC) + TLC trace validation of every getter after every event",
  "C19": "TLA+ decision table over the tick grid (TLC) replayed into Market._add_order + TLC trace validation",
  "C05": "TLA+ ledger fold validated by TLC on recorded runs + TLC exploration of all schedules (PamsRunner)",
  "C06": "TLA+ clock/history invariants (TLC) + TLC trace validation of clocks, history prefixes and future probes on recorded runs",
  "C09": "TLA+ scheduler model (TLC, all schedules) + TLC trace validation of recorded consultations, acceptances and rounds",
- "C10": "TLA+ logger-queue model (TLC) + TLC trace validation of deliveries against ground truth from market probes",
+ "C10": "TLA+ logger-queue models (PamsRunner, PamsLogger; TLC exhaustive) + PamsLogger behaviours replayed into the real Logger + TLC trace validation of deliveries against ground truth from market probes",
  "C11": "TLA+ owed-callback bag validated by TLC on recorded runs with scripted agents",
- "C13": "TLA+ hook-selection rule validated by TLC against recorded calls of probe events",
+ "C13": "TLA+ hook registry model PamsHooks (TLC exhaustive) replayed into the real Simulator + TLC trace validation of recorded hook calls (runs with and without a logger, registry-level histories)",
  "C14": "TLA+ event arithmetic lemmas (TLC) + TLC trace validation of fundamentals and accepted orders against configured shocks",
  "C15": "TLA+ clip lemmas (TLC) + TLC trace validation of every acceptance and trade in runs with price limit rules",
  "C16": "TLA+ halt-rule state machine (TLC, repaired design accepted / as-found design rejected) + TLC trace validation of running flags and fills",
